@@ -76,7 +76,8 @@ class C18(Prop):
         if cfg["source"] == "example":
             cfg["example"] = r.choice(corpus.names("eblif", 20000 if tier == "quick" else 70000))
         cfg["gen"] = {"max_ports": r.choice([1, 3]), "max_blackboxes": r.choice([1, 3]), "max_stmts": r.choice([3, 6, 10])}
-        cfg["render"] = {"comment_rate": r.choice([0.0, 0.2]), "continuations": r.random() < 0.6}
+        cfg["render"] = {"comment_rate": r.choice([0.0, 0.2]), "continuations": r.random() < 0.6,
+                         "allow_before": r.random() < 0.3}
         cfg["restart"] = r.random() < 0.3
         cfg["opts"] = r.choice([{}, {}, {"write_blackbox": True}, {"write_eblif_cname": True}])
         return cfg
